@@ -66,6 +66,10 @@ CLAIMED = {
    "(a) 120 (quick) / 4 000 (thorough) model-based API histories on real proxies: valid and single-defect rule lists (8 defect kinds at generated positions), GET, GET-then-POST-back and probes whose serving connector is identified by the address the origin sees; the model is the list in force. (b) in-process stress of set_rules against concurrent process_request on a 6-thread runtime with two lists whose every mixture is detectable (6 x 2 000 flips quick, 200 x 2 000 thorough). (b) is stress, not schedule enumeration.",
    "Trusted: the reference decision procedure over the atom grammar; origin-side peer address as connector identity.",
    "proptest-generated stateful histories vs a list model + multi-thread stress with detectable mixtures", "§3 C15"),
+ "C19": ("vp-e2e", "fault_enumeration",
+   "Fault sequences against real processes: proxy A routes through an upstream that the harness kills (SIGKILL, restart on the same ports after 0-5 s) or freezes (SIGSTOP/SIGCONT): a second real redproxy for the http, socks5, socks4, quic and load-balanced connectors, the origin itself for the direct connector, and harness-implemented HTTP-CONNECT / SOCKS5 upstreams that stall inside the upstream handshake and then die with RST. Phases: idle without prior traffic, idle after traffic (cached QUIC connection), tunnel open mid-transfer, request started during the outage; two outages per sequence (quick: 16 sequences; thorough: + 12 generated sequences of 1-4 outages per kind). A reference echo tunnel through another connector runs a round trip every 150 ms during the whole sequence.",
+   "Trusted: the bounds are a reading of 'small bounded number of attempts and bounded time': 45 s for a request during the outage to fail, 10 s for an open tunnel to close, recovery within 30 probes 1.5 s apart, 2.5 s worst reference round trip. Blackhole (packet drop) faults are not generated.",
+   "generated fault sequences (fault x phase x connector kind) against real processes, oracle = bounded recovery + clean failure + isolation of a reference tunnel", "§3 C19"),
  "C18": ("vp-inproc", "exploration",
    "Part (a): 4 000 (quick) / 300 000 (thorough) configuration documents obtained from three bases by tree mutations (delete / retype / duplicate / randomise / rename, targeted path and address replacement), generated load-balancer member graphs and generated scripts as filter / hashBy / log format are run through main()'s loading sequence on the real functions; the result must be Ok or an error with a message within 30 s, never a panic. The real-binary parts (--test vs start-up differential, POST /api/rules with arbitrary JSON, nesting ladder, cyclic load balancers under traffic) are added with the e2e engine.",
    "Trusted: the re-enactment of main() in the harness (kept line-for-line); access-log paths are redirected into the scratch directory.",
